@@ -116,6 +116,18 @@ def generate(repo):
             a0 = n.args[0] if n.args else None
             ok = a0 is not None and (_is_resolve_call(a0) or (isinstance(a0, ast.Name) and a0.id in guarded_names))
             calls.append((name, d, ok))
+    # FileSystemChain.walk_folder_repeat: relpath(file.path, prefix) or relpath(file.path, prefix.replace('\\', '/'))
+    chain = next((n for n in tree.body if isinstance(n, ast.ClassDef) and n.name == 'FileSystemChain'), None)
+    wrep = next((n for n in (chain.body if chain else []) if isinstance(n, ast.FunctionDef) and n.name == 'walk_folder_repeat'), None)
+    if wrep is None:
+        raise ExtractError('FileSystemChain.walk_folder_repeat not found')
+    wsrc = ast.unparse(wrep)
+    if "os.path.relpath(file.path, prefix.replace('\\\\', '/')).replace('\\\\', '/')" in wsrc:
+        chain_rel_slash = True
+    elif "os.path.relpath(file.path, prefix).replace('\\\\', '/')" in wsrc:
+        chain_rel_slash = False
+    else:
+        raise ExtractError('FileSystemChain.walk_folder_repeat: relpath call not recognised')
     out = []
     out.append('import Srctools.Model.C18')
     out.append('/-! GENERATED by tools/gen_fsys.py from src/srctools/filesys.py — do not edit. -/')
@@ -127,7 +139,10 @@ def generate(repo):
     out.append(f'/-- first statement of `_resolve_path`: `{first}` -/')
     out.append(f'def foldSlash : Bool := {"true" if fold_slash else "false"}')
     out.append('')
-    out.append('def cfg : C18.Cfg := ⟨containKind, foldSlash⟩')
+    out.append('/-- `FileSystemChain.walk_folder_repeat` replaces backslashes of the member prefix before `os.path.relpath`. -/')
+    out.append(f'def chainRelSlash : Bool := {"true" if chain_rel_slash else "false"}')
+    out.append('')
+    out.append('def cfg : C18.Cfg := ⟨containKind, foldSlash, chainRelSlash⟩')
     out.append('')
     out.append('/-- `RawFileSystem.__init__` stores `os.path.abspath(path)`. -/')
     out.append(f'def rootIsAbspath : Bool := {"true" if root_abs else "false"}')
